@@ -389,6 +389,10 @@ def check_case(case):
         p2 = g[str(ir.name)]
     except rejection_types() as e:
         msg = str(e)
+        if "does not depend on loop iterations" in msg:
+            # a restriction of the SOURCE language (config writes must not be control-dependent on
+            # iterators) that scheduling may legitimately leave behind, e.g. divide_loop's guard
+            return {"nontrivial": False, "digest": text, "classes": ["reparse-rejected-by-source-restriction", f"steps={len(acc)}"], "sample": None}
         if "effect checking" in msg or "out-of-bounds" in msg or "Could not verify" in msg:
             return {"nontrivial": False, "digest": text, "classes": ["reparse-rejected-by-bounds-check", f"steps={len(acc)}"], "sample": None}
         m1 = re.sub(r"<exoverif-\d+>:\d+:\d+:?", "", msg.replace("Errors occurred during typechecking:", "")).strip().splitlines()
